@@ -433,8 +433,13 @@ fn c15b_form_part3() {
 #[kani::unwind(12)]
 #[kani::stub(std::fmt::format, fmt_stub)]
 fn c15b_query() {
+    query_body(MAX_BODY)
+}
+
+fn query_body(max_len: usize) {
     let has_query = nd::any_bool();
     let (mut b, len) = any_body();
+    nd::assume(len <= max_len);
     let mut i = 0;
     while i < MAX_BODY {
         #[cfg(test)]
@@ -466,9 +471,23 @@ fn c15b_query() {
         #[allow(unreachable_patterns)]
         Err(_) => panic!("the wrong error kind was produced"),
     }
-    kani::cover!(r.is_ok() && has_query && len == 4, "a 4-byte query string reaches the parser");
+    kani::cover!(r.is_ok() && has_query && len == max_len, "a query string of the longest length reaches the parser");
     kani::cover!(r.is_err(), "a parser failure is reported");
     std::mem::forget(r);
+}
+
+
+// @tier quick
+// @obligation as c15b_query for query strings of at most 2 bytes: a first-party change that starts to search or split the query text itself (std's string searchers on symbolic text) can run CBMC out of memory at 4 bytes; this copy keeps such a change decidable
+// @bounds query string absent or <= 2 arbitrary ASCII bytes
+// @functions QueryParams::extract, query_params::parse
+// @timeout 1500
+// @mem 16
+#[kani::proof]
+#[kani::unwind(12)]
+#[kani::stub(std::fmt::format, fmt_stub)]
+fn c15b_query_short() {
+    query_body(2)
 }
 
 #[cfg(test)]
@@ -478,5 +497,5 @@ mod native_search {
     macro_rules! ns {
         ($($name:ident),*) => { $( #[test] fn $name() { nd::search(stringify!($name), super::$name, reset); } )* };
     }
-    ns!(c15b_json_part1, c15b_json_part2, c15b_json_part3, c15b_form_part1, c15b_form_part2, c15b_form_part3, c15b_query);
+    ns!(c15b_json_part1, c15b_json_part2, c15b_json_part3, c15b_form_part1, c15b_form_part2, c15b_form_part3, c15b_query, c15b_query_short);
 }
